@@ -136,6 +136,15 @@ fn main() {
             let t = std::time::Instant::now();
             eprintln!("verdict {:?} ({:?})", dsv::props::c17::verdict(ds, false), t.elapsed());
         }
+        "lowcounts" => {
+            // probe lowcounts <nr_gens> <k> <rel;rel;...> with letters as integers separated by commas
+            let g: usize = args[2].parse().unwrap();
+            let k: usize = args[3].parse().unwrap();
+            let rels: Vec<rust_dsymbols::fpgroups::free_words::FreeWord> = args[4].split(';').filter(|r| !r.is_empty()).map(|r| dsv::props::c11::fw(&r.split(',').map(|x| x.parse::<i64>().unwrap()).collect::<Vec<_>>())).collect();
+            let mut by = vec![0usize; k + 1];
+            for t in rust_dsymbols::fpgroups::cosets::coset_tables(g, &rels, k) { by[t.len()] += 1; }
+            println!("{:?}", &by[1..]);
+        }
         "interesting3d" => {
             // 3D symbols of a given size whose euclidicity verdict is decided after simplification
             use rayon::prelude::*;
